@@ -5,7 +5,7 @@ from .. import env, coq, runner, gates, tables
 
 LEVEL = 'proof'
 META = dict(
-    text='Coq theorems over a generic commutative ring with unit parameters, hence for every exponent at once: for each of the 18 dispatch branches of the IonQ serializer (x v vi rx y ry z s si t ti rz xx yy zz cnot swap h) the vendor meaning of the emitted gate equals the Cirq gate matrix (regenerated eigen tables) up to an explicit unit factor, for every exponent of the branch class and for all exponents in the rotation branches; the dispatch table regenerated from the working tree (945 rows: special exponents, just inside/outside the 1e-8 window, generic) equals the model decision function; native gpi/gpi2/ms/zz pass their parameters through; pauliexp term strings are little-endian for strings of any length; the measurement-metadata codec round-trips for every key/target list without separators and every chunk size; bit reversal is an involution and both result paths give qubit targets[i] bit targets[i] of the little-endian outcome; the AQT operation list is translated operation by operation into the v1 payload with matrices equal to the Cirq gates up to phase. On every run the REAL payloads of cirq_ionq.Serializer (single, batch, QIS, native) and AQTSampler (_generate_json, v1) for generated circuits are interpreted by the vendor semantics inside Coq and compared up to global phase with the reference unitary; metadata and result conversion are compared exactly with the codec model; unsupported content must raise; Service / Sampler / AQT samplers are run end to end against a stand-in vendor; the Pasqal request body must read back as the resolved circuit. HISTORIES of calls on one sampler / service object (Vendor/History.v: a sampler that keeps nothing, or keeps VALUES, posts at every call the circuit as it is then; one that keeps the caller\'s mutable object does not — refuted with the witness submit / insert in place / submit again — and only in-place mutation can expose it): on every run PasqalSampler, AQTSampler, AQTSamplerLocalSimulator and cirq_ionq.Service / its Sampler (QIS and native) are driven through histories in which the same mutable cirq.Circuit is submitted, edited in place (insert / append / del / setitem / slice assignment / batch_insert / batch_insert_into / batch_replace / batch_remove / clear_operations_touching), submitted again with an equal or another resolver, as a sweep, in a batch, as an equal copy or frozen; every recorded request body is decoded by the vendor gate definitions and must mean the circuit at the time of its call (unitary up to phase, measurement layout, register), and the decoded bodies must equal the history model evaluated in Coq. MEASUREMENTS of AQT circuits (Vendor/AQTMeas.v: a job can say one thing about measuring — all qubits, at the end, in index order, under m; the sampler refuses every circuit holding a measurement operation, whatever it accepts comes back with the meaning of the circuit, the terminal readout of all qubits under m is the only measurement whose circuit means the job of its gates, and posting the gates alone is refuted by seven witnesses: a measurement followed by a gate, another key, a subset, another order, an invert mask, two keys, a middle measurement plus terminal readout): on every run circuits with measurement operations in the middle / first / last, under m or other keys, on subsets, permuted, with invert masks and confusion maps, basis-state and superposition flavours on 1-3 qubits, plus random ones, go through AQTSampler._generate_json + _parse_legacy_circuit_json, AQTSampler.run_sweep (stand-in vendor answering every basis outcome) and AQTSamplerLocalSimulator.run_sweep; each must be refused or return results whose exact joint distribution (keys, columns, probabilities; 600 samples within total variation 0.18 for the local simulator) is that of the circuit\'s own measurement records, branching over the outcomes of measurements in the middle; basis-state cases are compared with the model inside Coq.',
+    text='Coq theorems over a generic commutative ring with unit parameters, hence for every exponent at once: for each of the 18 dispatch branches of the IonQ serializer (x v vi rx y ry z s si t ti rz xx yy zz cnot swap h) the vendor meaning of the emitted gate equals the Cirq gate matrix (regenerated eigen tables) up to an explicit unit factor, for every exponent of the branch class and for all exponents in the rotation branches; the dispatch table regenerated from the working tree (945 rows: special exponents, just inside/outside the 1e-8 window, generic) equals the model decision function; native gpi/gpi2/ms/zz pass their parameters through; pauliexp term strings are little-endian for strings of any length; the measurement-metadata codec round-trips for every key/target list without separators and every chunk size; bit reversal is an involution and both result paths give qubit targets[i] bit targets[i] of the little-endian outcome; the AQT operation list is translated operation by operation into the v1 payload with matrices equal to the Cirq gates up to phase. On every run the REAL payloads of cirq_ionq.Serializer (single, batch, QIS, native) and AQTSampler (_generate_json, v1) for generated circuits are interpreted by the vendor semantics inside Coq and compared up to global phase with the reference unitary; metadata and result conversion are compared exactly with the codec model; unsupported content must raise; Service / Sampler / AQT samplers are run end to end against a stand-in vendor; the Pasqal request body must read back as the resolved circuit. HISTORIES of calls on one sampler / service object (Vendor/History.v: a sampler that keeps nothing, or keeps VALUES, posts at every call the circuit as it is then; one that keeps the caller\'s mutable object does not — refuted with the witness submit / insert in place / submit again — and only in-place mutation can expose it): on every run PasqalSampler, AQTSampler, AQTSamplerLocalSimulator and cirq_ionq.Service / its Sampler (QIS and native) are driven through histories in which the same mutable cirq.Circuit is submitted, edited in place (insert / append / del / setitem / slice assignment / batch_insert / batch_insert_into / batch_replace / batch_remove / clear_operations_touching), submitted again with an equal or another resolver, as a sweep, in a batch, as an equal copy or frozen; every recorded request body is decoded by the vendor gate definitions and must mean the circuit at the time of its call (unitary up to phase, measurement layout, register), and the decoded bodies must equal the history model evaluated in Coq. MEASUREMENTS of AQT circuits (Vendor/AQTMeas.v: a job can say one thing about measuring — all qubits, at the end, in index order, under m; the sampler refuses every circuit holding a measurement operation, whatever it accepts comes back with the meaning of the circuit, the terminal readout of all qubits under m is the only measurement whose circuit means the job of its gates, and posting the gates alone is refuted by seven witnesses: a measurement followed by a gate, another key, a subset, another order, an invert mask, two keys, a middle measurement plus terminal readout): on every run circuits with measurement operations in the middle / first / last, under m or other keys, on subsets, permuted, with invert masks and confusion maps, basis-state and superposition flavours on 1-3 qubits, plus random ones, go through AQTSampler._generate_json + _parse_legacy_circuit_json, AQTSampler.run_sweep (stand-in vendor answering every basis outcome) and AQTSamplerLocalSimulator.run_sweep; each must be refused or return results whose exact joint distribution (keys, columns, probabilities; 600 samples within total variation 0.18 for the local simulator) is that of the circuit\'s own measurement records, branching over the outcomes of measurements in the middle; basis-state cases are compared with the model inside Coq. The EDGE of the IonQ vocabulary (Vendor/IonQ.v reads `control` / `controls` on any qis gate as |0><0| (x) 1 + |1><1| (x) U; proved: controlled x is cnot, controls nest, controlled z / s / si / t / ti are CZPowGate at the exponent classes 1, 1/2, -1/2, 1/4, -1/4 exactly, controlled rz(pi e) is CZ**e times Z**(-e/2) on the control and a scalar multiple of CZ**e only if exp(i pi e/2) = 1 - refuted at e = 1/2): on every run CZ / CY / iSWAP / CCZ / CCX / CCY powers, H / CNOT / SWAP powers on both sides of their accepted class, and controlled versions (sub.controlled() and cirq.ControlledGate, one and two controls) of X / Y / Z / H powers, rx / ry / rz, XX / YY / ZZ / CNOT / SWAP powers, over a fixed grid of exponents (special values, window boundaries, generic) and wire layouts, plus random ones, must be refused or, if accepted, the payload read inside Coq must be the unitary of the circuit.',
     note='Trusted: Coq kernel; the transcription of the IonQ / AQT gate definitions and of the little-endian conventions (headers of coq/Vendor/IonQ.v, AQT.v); the Python adapters that copy JSON fields and turn angles into unit complex numbers; the float instance (PrimFloat, tolerance 1e-9, 5e-7 when an exponent lies inside the serializer window); the stand-in vendors used for the end-to-end streams follow the same trusted text. Vendor services are not contacted. Field NAMES of the vendor JSON (e.g. `phase` vs `angle` for native zz) are taken as the serializer writes them; only their meaning is checked. Known findings: invert_mask / confusion_map / repeated measurement keys are accepted and altered by the IonQ serializer; AQTSampler does not validate qubit type / index.',
     technique='Rocq/Coq proof over generic-ring gate semantics and list codecs + vm_compute interpretation of real vendor payloads against the reference unitary',
 )
@@ -155,6 +155,11 @@ def cirq_gate(cirq, mods, o):
     if k == 'psp':
         dps = cirq.DensePauliString(o['codes'], coefficient=-1 if o['neg'] else 1)
         return cirq.PauliStringPhasorGate(dps, exponent_neg=o['en'], exponent_pos=o['ep'])
+    if k == 'ctl':
+        # a controlled gate, built the way a caller would: sub.controlled() (Cirq may return CZPowGate / CXPowGate ...) or
+        # cirq.ControlledGate(sub); either way Cirq documents it as identity on control 0 and sub on control 1
+        sub = cirq_gate(cirq, mods, o['sub'])
+        return sub.controlled(o['nc']) if o['how'] == 'method' else cirq.ControlledGate(sub, num_controls=o['nc'])
     if k == 'native':
         ci = mods['cirq_ionq']
         f, p = o['fam'], o['p']
@@ -213,6 +218,11 @@ def ref_term(o):
     if k == 'native':
         g = gates.G(o['fam'], o['p'], (2,) * len(o['w']))
         return f'({g.coq()}, {ax})'
+    if k == 'ctl':
+        sub = ref_term(dict(o['sub'], w=o['w'][o['nc']:]))
+        sub = sub[1:sub.rindex(',')]                          # the gate of the (gate, axes) pair
+        cd, cv = gates.nlist([2] * o['nc']), gates.nlist([1] * o['nc'])
+        return f'(GCtrl {cd} [{cv}] {sub}, {ax})'
     raise KeyError(k)
 
 
@@ -270,8 +280,13 @@ def ionq_op_term(op, native):
         units = ['(' + uu(t * _num(c)).replace(';', ',') + ')' for c in op['coefficients']]
         return f'(IPauliExp [{"; ".join(terms)}] [{"; ".join(units)}] {gates.nlist(_ints(op["targets"]))})'
     controls, targets, ps = [], None, ''
+    if 'controls' in keys:                               # `controls` (a list) and `control` (one wire) on any qis gate
+        if not isinstance(op['controls'], (list, tuple)):
+            raise Unrecognised(f'controls {op["controls"]!r}')
+        controls = _ints(op['controls'])
+        keys.discard('controls')
     if 'control' in keys:
-        controls = _ints([op['control']])
+        controls = controls + _ints([op['control']])
         keys.discard('control')
     if 'targets' in keys:
         targets = _ints(op['targets'])
@@ -330,22 +345,6 @@ def np_ionq_gate(op, native):
             r = cmath.exp(1j * math.pi * op['phase'])
             return np.diag([r.conjugate(), r, r, r.conjugate()]), list(op['targets'])
         raise Unrecognised(name)
-    X, Y, Z = _P[1], _P[2], _P[3]
-    one = {'x': X, 'y': Y, 'z': Z, 'h': (X + Z) / math.sqrt(2), 's': np.diag([1, 1j]), 'si': np.diag([1, -1j]),
-           't': np.diag([1, cmath.exp(0.25j * math.pi)]), 'ti': np.diag([1, cmath.exp(-0.25j * math.pi)]),
-           'v': np.array([[1 + 1j, 1 - 1j], [1 - 1j, 1 + 1j]]) / 2, 'vi': np.array([[1 - 1j, 1 + 1j], [1 + 1j, 1 - 1j]]) / 2}
-    if name in one:
-        return one[name], list(op['targets'])
-    if name in ('rx', 'ry', 'rz'):
-        P = {'rx': X, 'ry': Y, 'rz': Z}[name]
-        return c * np.eye(2) - 1j * s * P, list(op['targets'])
-    if name in ('xx', 'yy', 'zz'):
-        P = {'xx': X, 'yy': Y, 'zz': Z}[name]
-        return c * np.eye(4) - 1j * s * np.kron(P, P), list(op['targets'])
-    if name == 'cnot':
-        return np.array([[1, 0, 0, 0], [0, 1, 0, 0], [0, 0, 0, 1], [0, 0, 1, 0]]), [op['control'], op['target']]
-    if name == 'swap':
-        return np.array([[1, 0, 0, 0], [0, 0, 1, 0], [0, 1, 0, 0], [0, 0, 0, 1]]), list(op['targets'])
     if name == 'pauliexp':
         (term,), (coef,) = op['terms'], op['coefficients']
         P = np.eye(1)
@@ -353,7 +352,38 @@ def np_ionq_gate(op, native):
             P = np.kron(P, _P[PAULI_CODE[ch]])
         a = op['time'] * coef
         return math.cos(a) * np.eye(len(P)) - 1j * math.sin(a) * P, list(op['targets'])
-    raise Unrecognised(name)
+    # every other qis gate: `target` / `targets`, and any number of control wires through `control` / `controls`
+    # (|0><0| (x) 1 + |1><1| (x) U per control, controls listed first; cnot is x with one control)
+    controls = list(op.get('controls', [])) + ([op['control']] if 'control' in op else [])
+    targets = list(op['targets']) if 'targets' in op else [op['target']]
+    X, Y, Z = _P[1], _P[2], _P[3]
+    one = {'x': X, 'y': Y, 'z': Z, 'h': (X + Z) / math.sqrt(2), 's': np.diag([1, 1j]), 'si': np.diag([1, -1j]),
+           't': np.diag([1, cmath.exp(0.25j * math.pi)]), 'ti': np.diag([1, cmath.exp(-0.25j * math.pi)]),
+           'v': np.array([[1 + 1j, 1 - 1j], [1 - 1j, 1 + 1j]]) / 2, 'vi': np.array([[1 - 1j, 1 + 1j], [1 + 1j, 1 - 1j]]) / 2}
+    if name in QIS_ROT and rot is None:
+        raise Unrecognised(f'{name} without rotation')
+    if name == 'cnot':
+        if not controls:
+            raise Unrecognised('cnot without control')
+        base = X
+    elif name in one:
+        base = one[name]
+    elif name in ('rx', 'ry', 'rz'):
+        base = c * np.eye(2) - 1j * s * {'rx': X, 'ry': Y, 'rz': Z}[name]
+    elif name in ('xx', 'yy', 'zz'):
+        P = {'xx': X, 'yy': Y, 'zz': Z}[name]
+        base = c * np.eye(4) - 1j * s * np.kron(P, P)
+    elif name == 'swap':
+        base = np.array([[1, 0, 0, 0], [0, 0, 1, 0], [0, 1, 0, 0], [0, 0, 0, 1]])
+    else:
+        raise Unrecognised(name)
+    if len(base) != 2 ** len(targets):
+        raise Unrecognised(f'{name} on targets {targets}')
+    for _ in controls:
+        blk = np.eye(2 * len(base), dtype=complex)
+        blk[len(base):, len(base):] = base
+        base = blk
+    return base, controls + targets
 
 
 def np_embed(m, axes, n):
@@ -396,6 +426,13 @@ def np_ref_gate(cirq, mods, o):
         P = -P if o['neg'] else P
         a, b = cmath.exp(1j * math.pi * o['ep']), cmath.exp(1j * math.pi * o['en'])
         return (a + b) / 2 * np.eye(len(P)) + (a - b) / 2 * P
+    if o['k'] == 'ctl':
+        base = np_ref_gate(cirq, mods, o['sub'])
+        for _ in range(o['nc']):
+            blk = np.eye(2 * len(base), dtype=complex)
+            blk[len(base):, len(base):] = base
+            base = blk
+        return base
     return cirq.unitary(cirq_gate(cirq, mods, o))
 
 
@@ -415,6 +452,8 @@ def op_signature(o):
             if abs((e - t + 1) % 2 - 1) <= 3e-8:
                 cls = nm
         return f'{o["fam"]}:{cls}'
+    if o['k'] == 'ctl':
+        return f'ctl{o["nc"]}({op_signature(o["sub"])})'
     return o.get('fam', o['k'])
 
 
@@ -519,6 +558,111 @@ def ionq_many_stream(ctx, cirq, mods, checks, dchecks, n):
                             ms[i] if i < len(ms) else {}, sub, circuit_recs(cirq, mods, c))
 
 
+# ---------------------------------------------------------------------------------------------------
+# the edge of the vocabulary: gates the qis gateset has no name for (controlled phases, controlled rotations, iswap, Toffoli-like
+# gates, controlled versions of every accepted gate built both ways, accepted families at exponents outside their class).
+# Each must be refused, or - if a serializer finds a way to express it, e.g. through `control` / `controls` - what is sent must
+# still be the circuit's unitary.  Judged by meaning: the accepted payload goes through the same Coq / numpy reading as any other.
+# ---------------------------------------------------------------------------------------------------
+EDGE_EXPS = [1.0, 3.0, -1.0, 0.5, -0.5, 2.5, 0.25, -0.25, 1.75, 0.0, 2.0, 1.5, 0.3217, -1.37]
+EDGE_WINDOW = [(1 + 0.5e-8, True), (1 + 2e-8, False), (0.5 - 0.9e-8, True), (0.5 + 1.5e-8, False)]
+EDGE_2Q = ['CZPow', 'CYPow', 'ISwapPow']
+EDGE_3Q = ['CCZPow', 'CCXPow', 'CCYPow']
+EDGE_CLASS_ONE_ONLY = ['HPow', 'CXPow', 'SwapPow']
+EDGE_PREP = [dict(k='eig', fam='HPow', e=1.0, s=0.0, w=[0]), dict(k='eig', fam='XPow', e=0.3, s=0.0, w=[1]),
+             dict(k='eig', fam='YPow', e=0.7, s=0.0, w=[2])]
+
+
+def edge_case(op, window=False):
+    ops = EDGE_PREP + [op]
+    # edge=True: the last operation is outside the accepted vocabulary, so a refusal is a conformant answer (also on replay)
+    return dict(vendor='ionq', gateset='qis', ops=ops, strat=['E'] * len(ops), meas=[dict(key='m', w=[0, 1, 2])], window=window, edge=True)
+
+
+def edge_fixed_cases():
+    """Every VERIF_SEED: family x exponent (special values, window boundaries, generic) x wire layout x way of building."""
+    out = []
+    exps = [(e, False) for e in EDGE_EXPS] + EDGE_WINDOW
+    eig = lambda fam, e, s=0.0: dict(k='eig', fam=fam, e=e, s=s)
+    for fam in EDGE_2Q:
+        for e, win in exps:
+            for w in ([0, 1], [1, 0], [2, 0]):
+                out.append(edge_case(dict(eig(fam, e), w=w), win))
+        for e in (0.5, 1.0, 0.3217):                   # a global shift is a global phase: it may be dropped, nothing else may
+            out.append(edge_case(dict(eig(fam, e, 0.25), w=[1, 2])))
+    for fam in EDGE_3Q:
+        for e, win in exps:
+            for w in ([0, 1, 2], [2, 0, 1]):
+                out.append(edge_case(dict(eig(fam, e), w=w), win))
+    for fam in EDGE_CLASS_ONE_ONLY:                    # accepted at exponent 1 (mod 2) only; both sides of that line are in the grid
+        for e, win in exps:
+            for w in ([0] if fam == 'HPow' else [0, 1], [2] if fam == 'HPow' else [2, 1]):
+                out.append(edge_case(dict(eig(fam, e), w=w), win))
+    # controlled versions of accepted gates, built as a caller would: sub.controlled() and cirq.ControlledGate(sub)
+    for how in ('method', 'class'):
+        for fam in ('XPow', 'YPow', 'ZPow', 'HPow'):
+            for e, win in exps:
+                for w in ([0, 1], [2, 1]):
+                    out.append(edge_case(dict(k='ctl', nc=1, how=how, sub=eig(fam, e), w=w), win))
+            for e in (1.0, 0.5, 0.3217):
+                out.append(edge_case(dict(k='ctl', nc=1, how=how, sub=eig(fam, e, -0.5), w=[1, 0])))
+                out.append(edge_case(dict(k='ctl', nc=2, how=how, sub=eig(fam, e), w=[0, 2, 1])))
+        for fam in ('Rx', 'Ry', 'Rz'):
+            for rads in (math.pi, math.pi / 2, -math.pi / 2, math.pi / 4, 1.0107, 0.0):
+                for w in ([0, 1], [2, 1]):
+                    out.append(edge_case(dict(k='ctl', nc=1, how=how, sub=dict(k='rot', fam=fam, rads=rads), w=w)))
+        for fam in ('XXPow', 'YYPow', 'ZZPow', 'CXPow', 'SwapPow'):
+            for e in (1.0, 0.5, -0.25, 0.3217):
+                out.append(edge_case(dict(k='ctl', nc=1, how=how, sub=eig(fam, e), w=[2, 0, 1])))
+    return out
+
+
+def gen_edge_case(rng):
+    e, win = draw_exp(rng)
+    r = rng.random()
+    if r < 0.3:
+        op = dict(k='eig', fam=rng.choice(EDGE_2Q), e=e, s=gates.draw_shift(rng) if rng.random() < 0.3 else 0.0, w=rng.sample(range(3), 2))
+    elif r < 0.45:
+        op = dict(k='eig', fam=rng.choice(EDGE_3Q), e=e, s=0.0, w=rng.sample(range(3), 3))
+    else:
+        nc = 1 if rng.random() < 0.8 else 2
+        if rng.random() < 0.25:
+            sub = dict(k='rot', fam=rng.choice(['Rx', 'Ry', 'Rz']), rads=gates.draw_angle(rng))
+        elif nc == 1 and rng.random() < 0.2:
+            sub = dict(k='eig', fam=rng.choice(['XXPow', 'YYPow', 'ZZPow', 'CXPow', 'SwapPow']), e=e, s=0.0)
+        else:
+            sub = dict(k='eig', fam=rng.choice(['XPow', 'YPow', 'ZPow', 'HPow']), e=e, s=gates.draw_shift(rng) if rng.random() < 0.2 else 0.0)
+        k = nc + (2 if sub.get('fam') in TWO_Q else 1)
+        op = dict(k='ctl', nc=nc, how=rng.choice(['method', 'class']), sub=sub, w=rng.sample(range(3), k))
+    return edge_case(op, win)
+
+
+def ionq_edge_stream(ctx, cirq, mods, checks, dchecks, n_random):
+    stream = 'ionq_edge'
+    rng = ctx.rng
+    cases = edge_fixed_cases() + [gen_edge_case(rng) for _ in range(n_random)]
+    outcomes = ctx.cov.setdefault('ionq_edge_outcomes', {})
+    for case in cases:
+        rep = dict(kind='ionq_payload', case=case)
+        edge = case['ops'][-1]
+        try:
+            prog = serialize_case(cirq, mods, case)
+            outcome = 'accepted'
+        except Exception as e:
+            prog, outcome = None, type(e).__name__
+        ctx.count(stream, case, True, sample=dict(op=edge, outcome=outcome, payload=prog.input['circuit'][-1:] if prog else None))
+        sig = op_signature(edge)
+        outcomes.setdefault(sig, {}).setdefault(outcome, 0)
+        outcomes[sig][outcome] += 1
+        if prog is None:
+            continue                                     # refused: nothing was altered
+        inp = prog.input
+        head_ok = (set(inp) == {'gateset', 'qubits', 'circuit'} and inp['gateset'] == 'qis' and isinstance(inp['qubits'], int)
+                   and num_qubits(case) <= inp['qubits'] <= 8)
+        add_prog_checks(ctx, mods, checks, dchecks, stream, case, inp.get('circuit'), inp['qubits'] if head_ok else num_qubits(case), head_ok,
+                        prog.metadata, rep, circuit_recs(cirq, mods, case))
+
+
 def evaluate(ctx, cirq, mods, checks, SH=40):
     shards = []
     for s0 in range(0, len(checks), SH):
@@ -576,9 +720,13 @@ def report(ctx, cirq, mods, stream, rep):
         shown = json.dumps(serialize_case(cirq, mods, small).input)[:300]
     except Exception as e:
         shown = f'{type(e).__name__}'
+    try:
+        circ = (' = ' + ' '.join(repr(build_circuit(cirq, mods, small)).split()))[:300]
+    except Exception:
+        circ = ''
     _disagree(ctx, f'correspondence:{stream}', f'payload means another unitary: {small["ops"]}', sig,
                  f'IonQ payload {shown} interpreted by the vendor gate definitions is not the unitary (up to global phase) '
-                 f'of the circuit {small["ops"]}', dict(kind='ionq_payload', case=small))
+                 f'of the circuit {small["ops"]}{circ}', dict(kind='ionq_payload', case=small))
 
 
 def report_aqt(ctx, cirq, mods, rep):
@@ -1158,11 +1306,30 @@ def reject_oracle(cirq, mods, rep):
     return np_phase_dist(got, ref) < 1e-8
 
 
+REJECT_EXPS = [0.5, 0.0, -0.5, 0.25, 2.0, 1 + 2e-8, 1 - 1.5e-8, 0.3217, 1.5]
+REJECT_TAKES_EXP = ['CZ**0.5', 'ISWAP', 'PhasedX', 'H**e', 'CNOT**e', 'SWAP**e', 'ControlledZ', 'psp_negative_time']
+
+
+def reject_shown(cirq, mods, rep):
+    """The circuit and what was made of it, for the report line."""
+    try:
+        circuits, batch = unsupported_circuit(cirq, mods, rep['name'], rep['arg'])
+        ser = mods['cirq_ionq'].Serializer()
+        prog = ser.serialize_many_circuits(circuits) if batch else ser.serialize_single_circuit(circuits[0])
+        return (': ' + ' '.join(repr(circuits[0]).split()))[:300] + f' -> {json.dumps(prog.input)}'[:300]
+    except Exception:
+        return ''
+
+
 def reject_stream(ctx, cirq, mods, n_rounds):
     rng = ctx.rng
-    for name in (UNSUPPORTED_GATES + UNSUPPORTED_OTHER + UNSUPPORTED_MEASURE) * n_rounds:
-        e = rng.choice([0.5, 0.0, -0.5, 0.25, 2.0, 1 + 2e-8, 1 - 1.5e-8, 0.3217, 1.5])
-        arg = dict(w=rng.sample(range(4), 3), e=e, bits=[rng.randrange(2), rng.randrange(2)])
+    todo = [(name, None) for name in (UNSUPPORTED_GATES + UNSUPPORTED_OTHER + UNSUPPORTED_MEASURE) * n_rounds]
+    # every VERIF_SEED: each content that takes an exponent at every exponent of the list, on two wire layouts
+    todo += [(name, dict(w=w, e=e, bits=[0, 1])) for name in REJECT_TAKES_EXP for e in REJECT_EXPS for w in ([0, 1, 2], [3, 1, 0])]
+    for name, arg in todo:
+        if arg is None:
+            e = rng.choice(REJECT_EXPS)
+            arg = dict(w=rng.sample(range(4), 3), e=e, bits=[rng.randrange(2), rng.randrange(2)])
         rep = dict(kind='ionq_reject', name=name, arg=arg)
         try:
             ok = reject_oracle(cirq, mods, rep)
@@ -1175,7 +1342,7 @@ def reject_stream(ctx, cirq, mods, n_rounds):
         if not ok:
             _disagree(ctx, 'correspondence:ionq_reject', f'{name} {arg}', f'ionq_reject:{name}',
                          f'unsupported content `{name}` ({arg}) is neither rejected by cirq_ionq.Serializer nor kept: what is submitted / '
-                         f'returned differs from the circuit', rep)
+                         f'returned differs from the circuit{reject_shown(cirq, mods, rep)}', rep)
 
 
 # ---------------------------------------------------------------------------------------------------
@@ -2785,7 +2952,10 @@ def run(ctx):
                 'point x every kind of in-place edit the fixed pattern submit / edit / submit-with-an-equal-resolver (every VERIF_SEED), plus random histories; '
                 'non-trivial = >= 2 submissions and >= 1 in-place edit. AQT measurements: for n = 1..3 x 15 layouts (no measurement / in the middle / first / '
                 'terminal under m or another key / subset / reversed order / invert mask / confusion map / two keys / measurement only) x basis-state and '
-                'superposition gates x 3 entries (every VERIF_SEED), plus random gate lists with 0-2 measurements anywhere')
+                'superposition gates x 3 entries (every VERIF_SEED), plus random gate lists with 0-2 measurements anywhere. Edge of the IonQ vocabulary: '
+                '(CZ, CY, iSWAP, CCZ, CCX, CCY, H, CNOT, SWAP powers; controlled X/Y/Z/H powers, rotations and two-qubit powers built by .controlled() '
+                'and by ControlledGate with 1-2 controls) x 18 exponents (special, window boundaries, generic) x wire layouts after a superposition '
+                'preparation (835 circuits, every VERIF_SEED) plus random ones; refused or accepted-with-the-same-unitary')
     ctx.assumptions += ['vendor gate definitions transcribed in coq/Vendor/IonQ.v (trusted text)',
                         'adapters: JSON fields copied verbatim, angles turned into unit complex numbers by Python cos/sin',
                         'float instance tolerance 1e-9 (5e-7 when an exponent lies inside the serializer window)']
@@ -2812,6 +2982,7 @@ def run(ctx):
     history_stream(ctx, cirq, mods, hchecks, 24 if q else 400)
     mchecks = []
     aqt_meas_stream(ctx, cirq, mods, mchecks, 60 if q else 1500)
+    ionq_edge_stream(ctx, cirq, mods, checks, dchecks, 60 if q else 1500)
     evaluate(ctx, cirq, mods, checks)
     evaluate_discrete(ctx, cirq, mods, dchecks)
     evaluate_history(ctx, cirq, mods, hchecks)
@@ -2828,6 +2999,9 @@ def replay(ctx, data):
             prog = serialize_case(cirq, mods, case)
         except Exception as e:
             print('serializer raised', type(e).__name__, e)
+            if case.get('edge'):
+                print('content outside the accepted vocabulary was refused: nothing was altered')
+                return True
             return False
         print('payload:', json.dumps(prog.input), prog.metadata)
         holds, _ = payload_oracle(cirq, mods, data)
